@@ -339,6 +339,8 @@ def load_results():
 
 
 def save_results(r):
+    if os.environ.get("MUTANT_NO_SAVE"):
+        return      # invoked from a registered check: nothing under /verif is rewritten except the evidence
     json.dump(r, open(RESULTS, "w"), indent=1, sort_keys=True)
 
 
